@@ -679,7 +679,9 @@ static inline char *safec_fmt_find_n(const char *fmt, int is_scanf) {
             while (*p && *p != ']')
                 p++;
         }
-        if (*p)
+        /* the conversion character; a '%' that does not directly follow the introducing '%' is not
+           consumed: an invalid directive such as "%lh" is printed by libc and the next one is live */
+        if (*p && *p != '%')
             p++;
     }
     return NULL;
@@ -714,7 +716,9 @@ static inline wchar_t *safec_wfmt_find_n(const wchar_t *fmt, int is_scanf) {
             while (*p && *p != L']')
                 p++;
         }
-        if (*p)
+        /* the conversion character; a '%' that does not directly follow the introducing '%' is not
+           consumed: an invalid directive such as "%lh" is printed by libc and the next one is live */
+        if (*p && *p != L'%')
             p++;
     }
     return NULL;
